@@ -140,6 +140,9 @@ func runC04(c *Ctx) {
 
 	// R3: reviewed panic sites
 	const r3 = "C04.R3 explicit panic sites are the reviewed ones"
+	// the selection switch of syncCall panics on an unknown policy: that is unreachable only while register accepts
+	// exactly the policies the switch knows and stores them as validated
+	rulePolicyAgreement(c, r3)
 	allowedPanic := map[string]string{
 		"router.(*broker).publish":               "nil session/message argument guard (programming error of the embedding code, not client input)",
 		"router.(*broker).subscribe":             "nil argument guard",
